@@ -18,10 +18,42 @@ def only_c16_and_d11(ctx_fail):
     pass
 
 
+def cancelled_callers(rng, n):
+    """the caller of collect()/first() is cancelled, interrupted or closed in the very time step in which it makes the
+    call or receives a result: the activities that have not even started must be discarded, the others aborted"""
+    out = []
+    for _ in range(n):
+        acts = []
+        for i in range(rng.choice([2, 3, 3])):
+            b = []
+            if rng.random() < 0.8:
+                b.append(['await', ['delay', rng.choice([0, 1, 1, 2, 3])]])
+            b.append(['log', 10 + i])
+            acts.append([201 + i, b])
+        if rng.random() < 0.5:
+            call = ['collect', 501, acts]
+        else:
+            call = ['first', 501, rng.choice([None, 1, 2]), 0, acts, [['log', 30]] + ([['await', ['instant']]] if rng.random() < 0.3 else [])]
+        d = rng.choice([1, 1, 2])
+        victim = [['await', ['delay', d]], call, ['log', 40]]
+        how = rng.random()
+        if how < 0.5:
+            body = [['do', 1, 1, ['now'], False, victim]]
+            killer = [['await', ['delay', d + rng.choice([0, 0, 0, 1])]], ['cancel', 1, 5], ['log', 41]]
+            roots = [[['scope', 1, body + [['await', ['delay', 6]], ['log', 42]]], ['log', 43]]]
+            roots = ([killer] + roots) if rng.random() < 0.6 else (roots + [killer])
+        elif how < 0.8:
+            roots = [[['until', 1, ['delay', d + rng.choice([0, 0, 1])], [['do', 1, 1, ['now'], False, victim], ['await', ['delay', 8]]]], ['log', 43]]]
+        else:
+            roots = [[['scope', 1, [['do', 1, 1, ['now'], rng.random() < 0.5, victim], ['await', ['delay', d + rng.choice([0, 1])]], ['raise', 0]]]]]
+        out.append(('cancelled-callers', dict(start=0, till=None, roots=roots, nflags=1, tracked=[0], nlocks=1, nqueues=1, nchans=1, res=[])))
+    return out
+
+
 def run(ctx):
     # C03's monitor is used here only to recognise known finding D11 (CancelScope of first()'s scope escaping);
     # other C03 failures belong to C03's own check
-    scs, impl = machine_prop.run(ctx, FAMILIES, ['C16'])
+    scs, impl = machine_prop.run(ctx, FAMILIES, ['C16', 'C04'], extra_scenarios=cancelled_callers(ctx.rng, ctx.n(80, 1500)))
     from harness import monitors
     for sc, (tr, info) in zip(scs, impl):
         for expl, finding in monitors.mon_C03(sc, tr, info['probes'], info):
